@@ -589,10 +589,12 @@ def _make_init(cls: t.Type[PaneBase], fields: t.Sequence[Field]):
                 raise RuntimeError("Mismatch between fields and signature. This shouldn't happen")
             object.__setattr__(self, f.name, val)
 
-        object.__setattr__(self, PANE_SET_FIELDS, set_fields)
+        object.__setattr__(self, PANE_SET_FIELDS, set_fields.copy())
 
         if hasattr(self, POST_INIT):
             getattr(self, POST_INIT)()
+            # what the hook assigns was not supplied by the caller (as on the data path, see `from_dict_unchecked`)
+            object.__setattr__(self, PANE_SET_FIELDS, set_fields)
 
     setattr(__init__, '__signature__', sig)
     setattr(cls, '__init__', __init__)
